@@ -1,3 +1,4 @@
+import math
 from typing import Tuple, Union
 
 import numba as nb
@@ -16,6 +17,10 @@ from groupby_lib.util import (
     pandas_type_from_array,
     parallel_map,
 )
+
+# largest cartesian product of label counts that factorize_2d maps to one integer per row directly
+# (the mixed-radix weights must not wrap around in int64)
+MAX_CARTESIAN_PRODUCT = 2**62
 
 
 def factorize_arrow_arr(
@@ -506,26 +511,49 @@ def factorize_2d(
     codes_list, labels = zip(*factored)
     shape = list(map(len, labels))
     code_arr = np.vstack(codes_list).T
-    # weights for weighted sum of codes to map them to a 1-dimensional space
-    code_weights = np.cumprod(shape)
-    (
-        code_weights,
-        cartesian_product_size,
-    ) = (
-        code_weights[-1] // code_weights,
-        code_weights[-1],
-    )
 
-    if cartesian_product_size < use_dict_limit:
-        code_tracker = np.full(cartesian_product_size, -1, dtype="int32")
-    else:
-        code_tracker = nb.typed.Dict.empty(nb.types.int64, nb.types.int64)
+    def combine(code_arr, shape):
+        # weights for weighted sum of codes to map them to a 1-dimensional space
+        code_weights = np.cumprod(shape)
+        (
+            code_weights,
+            cartesian_product_size,
+        ) = (
+            code_weights[-1] // code_weights,
+            code_weights[-1],
+        )
 
-    combined_codes, uniques = _combine_factorizations(
-        code_arr,
-        code_weights=code_weights,
-        code_tracker=code_tracker,
-    )
+        if cartesian_product_size < use_dict_limit:
+            code_tracker = np.full(cartesian_product_size, -1, dtype="int32")
+        else:
+            code_tracker = nb.typed.Dict.empty(nb.types.int64, nb.types.int64)
+
+        return _combine_factorizations(
+            code_arr,
+            code_weights=code_weights,
+            code_tracker=code_tracker,
+        )
+
+    # The cartesian product of several keys with many labels each does not fit in 64 bits
+    # (the weights would wrap around and unrelated rows share a code). Fold the two leading
+    # keys into one - their combinations that occur are at most as many as the rows -
+    # until it does.
+    leading = None  # per-level codes of the combinations of the folded leading keys
+    while len(shape) > 2 and math.prod(map(int, shape)) >= MAX_CARTESIAN_PRODUCT:
+        # (a copy: the kernel re-uses the matrix it is given for the uniques)
+        folded_codes, folded_uniques = combine(code_arr[:, :2].copy(), shape[:2])
+        if leading is None:
+            leading = folded_uniques
+        else:
+            leading = np.column_stack(
+                [leading[folded_uniques[:, 0]], folded_uniques[:, 1]]
+            )
+        code_arr = np.column_stack([folded_codes, code_arr[:, 2:]])
+        shape = [len(folded_uniques), *shape[2:]]
+
+    combined_codes, uniques = combine(code_arr, shape)
+    if leading is not None:
+        uniques = np.column_stack([leading[uniques[:, 0]], uniques[:, 1:]])
 
     multi_index = pd.MultiIndex(
         codes=list(uniques.T),
